@@ -31,6 +31,12 @@ CHECKS = {
         "Trusted: Python statement semantics; premise that decoders return non-empty in-bounds hits.",
         "DESIGN.md 2.6, 3/C06",
     ),
+    "C13": (
+        "provenance terms from abstract interpretation (conversion applied to a group of the match whose whole span is the node span), regex-automaton facts (group alphabets, minimum lengths, language containment/equality), guard truth table for find_base64's rejection rules, structural match of apply_xor_key/dexor",
+        "Decides the structural half of exactness: which stdlib conversion is applied to exactly which delimited text and reported over exactly which span with which label; the acceptance thresholds (22 chars, multiple of 4, > 6 distinct, not pure hex/letters, slash rule; 10 same-case hex pairs; > 500 array elements) and that the documented call forms are matched as one unit; xor applies b ^ key to every byte of the parent's value with the stated key. Bit-exactness of binascii and the key xortool guesses are not decided.",
+        "Trusted: binascii, bytes(generator). The byte-range of xor keys (0..999 from the regex) is a totality matter decided under C01.",
+        "DESIGN.md 3/C13",
+    ),
     "C17": (
         "guard truth tables with integer theory (boundary test, MixedCase per-byte test), find-advance loop template, constructor-argument provenance through Node.__init__'s signature",
         "Decides the whole mechanism of keyword.find_all / find_keywords / is_mixed_case: the boundary formula equals the statement's, both search operands are lower-cased, the search starts at 0 and advances by len(keyword) on every path, empty keywords are rejected, type/value/span roles and the MixedCase formula are the documented ones.",
